@@ -357,6 +357,8 @@ def gen_method(rng, used_names):
         "out": "unit" if (oneway or rng.random() < 0.3) else "out",
         "params": params,
     }
+    if rng.random() < 0.15:
+        m["style"] = "future"
     return m
 
 
@@ -506,8 +508,12 @@ def render_method_sig(m):
     else:
         ret = "zlink::Result<Result<%s, MErr>>" % out_t
     w = ("\n    where\n        %s" % ",\n        ".join(wh)) if wh else ""
-    return "%s\n    async fn %s%s(\n        %s,\n    ) -> %s%s;" % (
-        "\n".join(attrs), m["name"], g, ",\n        ".join(ps), ret, w)
+    kw = "async fn"
+    if m.get("style") == "future":       # "Can be either `async fn` or return `impl Future`"
+        kw = "fn"
+        ret = "impl std::future::Future<Output = %s>" % ret
+    return "%s\n    %s %s%s(\n        %s,\n    ) -> %s%s;" % (
+        "\n".join(attrs), kw, m["name"], g, ",\n        ".join(ps), ret, w)
 
 
 def render_trait(t):
@@ -579,7 +585,8 @@ def render_trait(t):
                          "Some(None) => { v.push(\"end\".to_string()); break } None => { v.push(\"stuck\".to_string()); break } } } v }")
                 L.append("            },")
                 L.append("        };")
-            L.append("        let low = low_seq!(%s, MErr, reply, 18);" % out_t)
+            low_t = "NoOut" if (form == "plain" and m["out"] == "unit") else out_t
+            L.append("        let low = low_seq!(%s, MErr, reply, 18);" % low_t)
             L.append("        let frames = sh.borrow().frames();")
             L.append("        Rec { frames, out, low }")
             L.append("    }")
@@ -813,6 +820,12 @@ pub struct Out {
     #[serde(default)]
     pub b: Option<String>,
 }
+
+/// What the macro decodes the reply parameters of a method returning `()` as (method_impl.rs:
+/// `struct NoOutputParameters {}`); the low-level classification of such a method's replies is
+/// taken with the same shape.
+#[derive(Debug, Deserialize)]
+pub struct NoOut {}
 
 #[derive(Debug, ReplyError)]
 #[zlink(interface = "org.example.err")]
